@@ -5,7 +5,9 @@
 package valgen
 
 import (
+	"bytes"
 	"fmt"
+	"io"
 	"math"
 	"net"
 	"net/netip"
@@ -53,6 +55,7 @@ var (
 	tRaw      = reflect.TypeOf(jx.Raw{})
 	tBytes    = reflect.TypeOf([]byte{})
 	tNum      = reflect.TypeOf(jx.Num{})
+	tReader   = reflect.TypeOf((*io.Reader)(nil)).Elem()
 )
 
 var coreStrings = []string{"a", "abc", "x1", "A_b", "hello", "Z", "0", "v_2", "value"}
@@ -263,11 +266,21 @@ func (b *Builder) fill(t *rapid.T, v reflect.Value, depth int) {
 		return
 	}
 	// named byte-slice types: ogen's any-typed components are `type T jx.Raw`; reflection cannot tell
-	// them from `type T []byte`, and a JSON text is a fine value for both
+	// them from `type T []byte` or `type T net.HardwareAddr`: a 6-byte JSON text is a fine value for
+	// all three (a JSON value, a byte string, an EUI-48 address)
 	if rt.Kind() == reflect.Slice && rt.Elem().Kind() == reflect.Uint8 && rt.Name() != "" {
-		raw := rapid.SampledFrom([]string{`null`, `1`, `"s"`, `true`, `[1,"a"]`, `{"k":"v"}`, `-0.5`, `{}`, `[]`}).Draw(t, "namedraw")
+		raw := rapid.SampledFrom([]string{`"abcd"`, `123456`, `[1,22]`, `-12345`, `1.5e10`}).Draw(t, "namedraw")
 		v.SetBytes([]byte(raw))
 		return
+	}
+	// named struct types over a well-known struct (`type T netip.Addr`, `type T uuid.UUID`, ...)
+	for _, special := range []reflect.Type{tTime, tUUID, tAddr, tURL} {
+		if rt != special && rt.Kind() == special.Kind() && rt.ConvertibleTo(special) && special.ConvertibleTo(rt) {
+			sv := reflect.New(special).Elem()
+			b.fill(t, sv, depth)
+			v.Set(sv.Convert(rt))
+			return
+		}
 	}
 	if hasSet, hasNull, ok := isWrapper(rt); ok {
 		states := []string{"value"}
@@ -290,7 +303,16 @@ func (b *Builder) fill(t *rapid.T, v reflect.Value, depth int) {
 			if hasSet {
 				v.FieldByName("Set").SetBool(true)
 			}
-			b.fill(t, v.FieldByName("Value"), depth)
+			val := v.FieldByName("Value")
+			b.fill(t, val, depth)
+			if val.Kind() == reflect.Pointer && val.IsNil() {
+				// "set to a value" with a nil pointer is no state of the wrapper: point at a value
+				p := reflect.New(val.Type().Elem())
+				if depth < 8 {
+					b.fill(t, p.Elem(), depth+2)
+				}
+				val.Set(p)
+			}
 			return
 		}
 	}
@@ -314,6 +336,13 @@ func (b *Builder) fill(t *rapid.T, v reflect.Value, depth int) {
 	case reflect.Float64:
 		v.SetFloat(b.float(t, 64))
 	case reflect.Struct:
+		if rt.Name() == "MultipartFile" && strings.HasSuffix(rt.PkgPath(), "ogen/http") {
+			data := rapid.SliceOfN(rapid.Byte(), 0, 16).Draw(t, "file")
+			v.FieldByName("Name").SetString(rapid.SampledFrom(coreStrings).Draw(t, "filename"))
+			v.FieldByName("File").Set(reflect.ValueOf(bytes.NewReader(data)))
+			v.FieldByName("Size").SetInt(int64(len(data)))
+			return
+		}
 		for i := 0; i < rt.NumField(); i++ {
 			if !rt.Field(i).IsExported() {
 				continue
@@ -374,6 +403,11 @@ func (b *Builder) fill(t *rapid.T, v reflect.Value, depth int) {
 		}
 		v.Set(m)
 	case reflect.Interface:
+		if rt == tReader {
+			// streams (octet-stream bodies, multipart files): a small in-memory reader
+			v.Set(reflect.ValueOf(bytes.NewReader(rapid.SliceOfN(rapid.Byte(), 0, 16).Draw(t, "stream"))))
+			return
+		}
 		impls := b.Variants[rt.Name()]
 		if len(impls) == 0 {
 			b.unsupported("interface " + rt.String())
